@@ -47,6 +47,58 @@ def rust_literals(code):
     return [literal_value(m) for m in re.finditer(LIT, code, flags=re.S)]
 
 
+CHAR = r"'(\\.|[^'\\])'"
+
+
+def text_content(code):
+    """the literal text a piece of string-building code contributes: its string literals (format holes `{}` removed)
+    and char literals, concatenated in source order.  `res += &format!("\n{}", q)`, `res.push('\n'); res.push_str(&q)`,
+    `a + "\n" + &b` and `format!("{}\n{}", a, b)` all have the content "\n"."""
+    out = ""
+    for m in re.finditer("(?:%s)|(?:%s)" % (LIT, CHAR), code, flags=re.S):
+        if m.group(4) is not None:
+            out += unescape(m.group(4))
+        else:
+            v = literal_value(m)
+            try:
+                out += "".join(fmt_pieces(v))
+            except ValueError:
+                out += v
+    return out
+
+
+def literals_inlined(code, src, depth=2):
+    """string literals of `code` in source order, where (a) a call `Self::helper(` of a PRIVATE fn of the same file
+    contributes the literals of the helper's body at the place of the call (one or two levels), and (b) a match arm with an
+    or-pattern `CircuitOp::A(..) | CircuitOp::B(..) => { .. }` counts once per alternative (as if the arms were written
+    separately).  Extracting or inlining a helper and merging / splitting arms with identical bodies give the same list."""
+    out = []
+    arm = r"(CircuitOp::\w+\s*(?:\([^)]*\))?(?:\s*\|\s*CircuitOp::\w+\s*(?:\([^)]*\))?)+)\s*=>\s*\{"
+    pat = re.compile("(?P<lit>%s)|Self::(?P<fn>\\w+)\\s*\\(|(?P<arm>%s)" % (LIT, arm), flags=re.S)
+    i = 0
+    while True:
+        m = pat.search(code, i)
+        if not m:
+            break
+        if m.group("lit") is not None:
+            lm = re.match(LIT, m.group("lit"), flags=re.S)
+            out.append(literal_value(lm))
+            i = m.end()
+        elif m.group("fn") is not None:
+            name = m.group("fn")
+            hm = re.search(r"(?<![\w])(pub(?:\([^)]*\))?\s+)?fn\s+%s\s*(?:<[^>]*>)?\s*\(" % name, src)
+            if hm and not hm.group(1) and depth > 0:
+                hbody, _ = block_after(src, hm.end())
+                out += literals_inlined(hbody, src, depth - 1)
+            i = m.end()
+        else:
+            k = m.group("arm").count("CircuitOp::")
+            blk, end = block_after(code, m.end() - 1)
+            out += literals_inlined(blk[1:-1], src, depth) * k
+            i = end
+    return out
+
+
 def block_after(src, start):
     """brace-balanced block starting at the first `{` at or after `start`; returns (text, end)."""
     i = src.index("{", start)
@@ -206,7 +258,10 @@ def gen_CQasmTemplates(repo):
                 block, _ = block_after(src, m.start())
                 if "fn conditional_c_qasm" not in block or "fn c_qasm" not in block:
                     raise ValueError("CQasmTemplates: %s no longer overrides both c_qasm and conditional_c_qasm" % name)
-                structural[name] = (rust_literals(fn_body(block, "c_qasm")), rust_literals(fn_body(block, "conditional_c_qasm")))
+                cb, kb = fn_body(block, "c_qasm"), fn_body(block, "conditional_c_qasm")
+                # c_qasm of Kron / Loop: ONE format string (consumed: cqKronPieces / cqLoopPieces); everything else is
+                # string building whose only literal text is one newline (`text_content`)
+                structural[name] = (text_content(cb) if name == "Composite" else rust_literals(cb), text_content(kb))
                 continue
             kind, override = parse_handwritten(name, src, all_src)
             params = new_params(src, name)
@@ -214,11 +269,11 @@ def gen_CQasmTemplates(repo):
                 raise ValueError("CQasmTemplates: no `new` found for %s" % name)
             entries[name] = (params, kind, override)
     # structural shapes the model is written for
-    if structural.get("Kron") != (["{{ {} | {} }}"], ["\n"]):
+    if structural.get("Kron") != (["{{ {} | {} }}"], "\n"):
         raise ValueError("CQasmTemplates: Kron literals changed: %r" % (structural.get("Kron"),))
-    if structural.get("Composite") != (["\n{}"], ["\n{}"]):
+    if structural.get("Composite") != ("\n", "\n"):
         raise ValueError("CQasmTemplates: Composite literals changed: %r" % (structural.get("Composite"),))
-    if structural.get("Loop") != ([".{}({})\n{}\n.end"], ["\n"]):
+    if structural.get("Loop") != ([".{}({})\n{}\n.end"], "\n"):
         raise ValueError("CQasmTemplates: Loop literals changed: %r" % (structural.get("Loop"),))
     # C<G> must not implement CQasm (the model answers NotImplemented through the trait default)
     csrc = all_src["controlled.rs"]
@@ -280,7 +335,11 @@ def gen_CQasmTemplates(repo):
     # default conditional
     dsrc = T.strip_rust_comments(T.read(repo, "src/export/cqasm.rs")).split("#[cfg(test)]")[0]
     dbody = fn_body(dsrc, "conditional_c_qasm")
-    if dbody is None or 'unc_qasm.splitn(2, " ")' not in dbody or "parts.len() != 2" not in dbody:
+    dflat = " ".join((dbody or "").split())
+    two_parts = ("parts.len() != 2" in dflat or "parts.len() == 2" in dflat or
+                 re.search(r"match \(parts\.next\(\), parts\.next\(\)\) \{ \(Some\(\w+\), Some\(\w+\)\) =>", dflat) or
+                 re.search(r"if let \(Some\(\w+\), Some\(\w+\)\) = \(parts\.next\(\), parts\.next\(\)\)", dflat))
+    if dbody is None or 'unc_qasm.splitn(2, " ")' not in dbody or not two_parts:
         raise ValueError("CQasmTemplates: default conditional_c_qasm changed shape")
     dl = rust_literals(dbody)
     if dl != [" ", "c-{} {}, {}"]:
@@ -294,7 +353,7 @@ def gen_CQasmTemplates(repo):
     if not cm:
         raise ValueError("CQasmTemplates: Circuit::c_qasm not found")
     cbody, _ = block_after(circ, cm.end())
-    clits = rust_literals(cbody)
+    clits = literals_inlined(cbody, circ)
     body = ",\n".join("  { name := %s, params := %s, kind := %s, condOverride := %s }" % (
         lean_str(k), lean_list([lean_str(p) for p in entries[k][0]]), entries[k][1],
         "true" if entries[k][2] else "false") for k in sorted(entries))
